@@ -40,6 +40,8 @@ def configs(tier, seed):
     for c in c01.configs(tier, seed):
         if c.get("twin") or ("params" in c and c["algo"] not in ("StoSOO", "SOO", "HCT") and not c.get("prefix")):
             continue
+        if c.get("prefix") and c["prefix"]["P"] > 130 and tier == "quick":
+            continue  # the invariant is re-evaluated on the whole tree after every round: long prefixes only in the thorough tier
         c = dict(c, name="algo-" + c["name"], mode="algo")
         out.append(c)
     out.append({"name": "twin-index", "mode": "index", "kind": "K3", "d": 1, "part": "K3", "twin": True, "expect_fail": "twin"})
